@@ -1,4 +1,4 @@
-SPECIFICATION FairSpec
+SPECIFICATION Spec
 CONSTANTS
   Conn = {c1, c2}
   Req = {r1, r2}
@@ -17,6 +17,4 @@ INVARIANT WgCounts
 PROPERTY EndsOnce
 PROPERTY NoProgressAfterCancel
 PROPERTY NoAcceptAfterExit
-PROPERTY CancelOnDisconnect
-PROPERTY ShutdownCompletes
 CHECK_DEADLOCK FALSE
